@@ -967,6 +967,10 @@ func ownSerialisation(p *Prog, v ssa.Value, depth int) string {
 	if depth > 3 {
 		return ""
 	}
+	if c, ok := v.(*ssa.Call); ok && len(c.Call.Args) == 1 && emitsGT(p, c.Call.StaticCallee()) {
+		// the module's attribute '>' escaper applied to own output is still own output
+		return ownSerialisation(p, c.Call.Args[0], depth+1)
+	}
 	if ex, ok := v.(*ssa.Extract); ok && ex.Index == 0 {
 		if c, ok := ex.Tuple.(*ssa.Call); ok {
 			scf := c.Call.StaticCallee()
@@ -975,6 +979,9 @@ func ownSerialisation(p *Prog, v ssa.Value, depth int) string {
 			}
 			if scf.String() == "(*github.com/beevik/etree.Document).WriteToBytes" {
 				return "Document.WriteToBytes in this function"
+			}
+			if info := serialisers(p)[scf]; info != nil {
+				return "result of " + shortFn(scf) + " (Document.WriteToBytes of its argument)"
 			}
 			if p.InLibrary(scf) {
 				all := true
